@@ -9,7 +9,7 @@ Check (C15_row_roundtrip : forall idcol ds k bs r, pairs_wf ds -> target_wf k bs
   csv_row_now r = Ok {| Loader.ab_id := opt idcol; Loader.ab_data := ds;
                         Loader.ab_target := Some (target_of k bs) |}).
 Check (C15_unpack_pack : forall s h a r, store_ok s = true -> get_ann s h = Some a ->
-  (a_kind a <> 0 -> a_leaves a <> []) -> pack_row s h a = Some r ->
+  pack_row s h a = Some r ->
   exists bs ds, map_opt (leaf_build s) (a_leaves a) = Some bs /\ data_names s a = Some ds /\
     csv_row_now r = Ok {| Loader.ab_id := opt (id_column h a); Loader.ab_data := ds;
                           Loader.ab_target := Some (target_of (a_kind a) bs) |}).
@@ -60,5 +60,5 @@ Print Assumptions C15_name_plain.
 Print Assumptions C15_name_temp.
 Print Assumptions C15_name_set.
 Print Assumptions C15_tempid_refuted.
-Print Assumptions C15_empty_complex_refuted.
+Print Assumptions C15_empty_complex.
 Print Assumptions C15_nonvacuous.
